@@ -429,15 +429,27 @@ func c16Caps(c *Ctx) {
 		return false
 	}
 	// the recomputation: function with MapUpdate of constant key "tools" into a fresh map stored into a field afterwards
+	// (the function that adds the conditional capabilities; the unconditional part may come from a helper that builds
+	// the base map)
 	var recompute *ssa.Function
+	rank := 0
 	for _, fn := range c.P.LibFns {
 		if c.InitOnly()[fn] {
 			continue
 		}
 		ir.EachInstr(fn, func(_ *ssa.BasicBlock, _ int, in ssa.Instruction) {
 			if mu, ok := in.(*ssa.MapUpdate); ok {
-				if k, ok := ir.ConstStr(ir.Unwrap(mu.Key)); ok && k == "tools" {
-					recompute = fn
+				if k, ok := ir.ConstStr(ir.Unwrap(mu.Key)); ok {
+					r := 0
+					switch k {
+					case "tools":
+						r = 1
+					case "resources", "prompts":
+						r = 2
+					}
+					if r > rank {
+						recompute, rank = fn, r
+					}
 				}
 			}
 		})
@@ -516,6 +528,82 @@ func c16Caps(c *Ctx) {
 						}
 					}
 				}
+				// a predicate helper (hasResources()) that returns `manager != nil && len(listing) > 0`
+				if hc, ok := cond.(*ssa.Call); ok && g.Branch {
+					if sc := ir.StaticCallee(hc); sc != nil && c.P.IsLib(sc) {
+						okH, nRet := true, 0
+						ir.EachInstr(sc, func(b *ssa.BasicBlock, _ int, in2 ssa.Instruction) {
+							r, ok := in2.(*ssa.Return)
+							if !ok || b == sc.Recover || len(ir.Results(r)) != 1 {
+								return
+							}
+							nRet++
+							vals := []ssa.Value{ir.Results(r)[0]}
+							if phi, ok := vals[0].(*ssa.Phi); ok {
+								vals = phi.Edges
+							}
+							sawLen := false
+							for _, v := range vals {
+								if cst, ok := v.(*ssa.Const); ok && cst.Value != nil && cst.Value.String() == "false" {
+									continue
+								}
+								bin, ok := v.(*ssa.BinOp)
+								if !ok {
+									okH = false
+									continue
+								}
+								var lenv ssa.Value
+								switch {
+								case bin.Op == token.GTR && isZero(bin.Y):
+									lenv = bin.X
+								case bin.Op == token.LSS && isZero(bin.X):
+									lenv = bin.Y
+								case bin.Op == token.NEQ && isZero(bin.Y):
+									lenv = bin.X
+								case bin.Op == token.GEQ && isOne(bin.Y):
+									lenv = bin.X
+								}
+								lc, ok := lenv.(*ssa.Call)
+								if !ok {
+									okH = false
+									continue
+								}
+								if b2, ok := lc.Call.Value.(*ssa.Builtin); !ok || b2.Name() != "len" {
+									okH = false
+									continue
+								}
+								src, ok := lc.Call.Args[0].(*ssa.Call)
+								if !ok || !readsRegistry(src, reg) || userCallbackReached(c, src) != "" {
+									okH = false
+									continue
+								}
+								sawLen = true
+							}
+							if !sawLen {
+								okH = false
+							}
+						})
+						// the helper's own branches: nil tests of the manager only
+						for _, b := range sc.Blocks {
+							if len(b.Instrs) == 0 {
+								continue
+							}
+							if ifi, ok := b.Instrs[len(b.Instrs)-1].(*ssa.If); ok {
+								if v, _, ok := nilCompare(ifi.Cond); ok {
+									if f, _, ok := ir.LoadedField(v); ok {
+										wiring[f.Key()] = true
+									}
+								} else {
+									okH = false
+								}
+							}
+						}
+						if okH && nRet > 0 {
+							okGuard = true
+							continue
+						}
+					}
+				}
 				// nil checks of the manager are fine; anything else is an extra condition
 				if v, _, ok := nilCompare(cond); ok {
 					if _, isPtr := v.Type().Underlying().(*types.Pointer); isPtr {
@@ -532,6 +620,31 @@ func c16Caps(c *Ctx) {
 				sprintf("the %s capability is not advertised exactly when at least one entry is registered (needs: len(listing of %s) > 0 and nothing else)%s", k, reg, ifs(extra != "", "; found "+extra, "")))
 		}
 	})
+	// "tools" may be part of a base map that a straight-line helper builds and the recomputation starts from
+	if !found["tools"] {
+		ir.EachInstr(recompute, func(_ *ssa.BasicBlock, _ int, in ssa.Instruction) {
+			call, ok := in.(*ssa.Call)
+			if !ok || found["tools"] {
+				return
+			}
+			sc := ir.StaticCallee(call)
+			if sc == nil || !c.P.IsLib(sc) || len(pd.ControlDepsTransitive(call.Block())) > 0 {
+				return
+			}
+			if _, isMap := call.Type().Underlying().(*types.Map); !isMap {
+				return
+			}
+			hpd := flow.NewPostDom(sc)
+			ir.EachInstr(sc, func(_ *ssa.BasicBlock, _ int, in2 ssa.Instruction) {
+				if mu, ok := in2.(*ssa.MapUpdate); ok {
+					if k, ok := ir.ConstStr(ir.Unwrap(mu.Key)); ok && k == "tools" && len(hpd.ControlDepsTransitive(mu.Block())) == 0 {
+						found["tools"] = true
+						c.R.Hold("R-cap-guards", sprintf("capability %q in %s", k, fname(recompute)), c.Pos(call.Pos()), "advertised unconditionally (base map built by "+fname(sc)+")")
+					}
+				}
+			})
+		})
+	}
 	for _, k := range []string{"tools", "resources", "prompts"} {
 		if !found[k] {
 			c.R.Violate("R-cap-guards", sprintf("capability %q", k), c.Pos(recompute.Pos()), sprintf("the capability recomputation never stores key %q", k))
